@@ -6,6 +6,7 @@ import (
 	"errors"
 	"fmt"
 	"strings"
+	"sync"
 	"testing"
 	"time"
 
@@ -122,8 +123,17 @@ func TestC16Route(t *testing.T) {
 		peers := gen.Peers(r, 4)
 		self := peers[0]
 		f := newTrFix(c, self)
+		var refuseMu sync.Mutex
+		refuse := map[datatransfer.ChannelID]bool{}
 		f.ev.SetReply(func(h doubles.HCall) (datatransfer.Message, error) {
 			switch h.Op {
+			case "OnChannelOpened":
+				refuseMu.Lock()
+				no := refuse[h.Chid]
+				refuseMu.Unlock()
+				if no {
+					return nil, errors.New("channel is not tracked by the manager")
+				}
 			case "OnRequestReceived":
 				if rq, ok := h.Msg.(datatransfer.Request); ok && (rq.IsNew() || rq.IsRestart()) {
 					m, _ := message.NewResponse(h.Chid.ID, true, false, nil)
@@ -163,6 +173,40 @@ func TestC16Route(t *testing.T) {
 				if err := f.tr.UseStore(ch.chid, ipld.LinkSystem{}); err == nil {
 					ch.store = true
 				}
+			}
+			if ch.out && r.Intn(6) == 0 {
+				// the events handler refuses the channel from inside the outgoing-request hook: the open
+				// fails and the channel's lifetime is over - nothing of it may remain
+				refuseMu.Lock()
+				refuse[ch.chid] = true
+				refuseMu.Unlock()
+				err := f.openOut(ch, false)
+				settle()
+				if err == nil {
+					c.Violation("C16", "refused-open-succeeded", "OnChannelOpened returned an error but OpenChannel succeeded")
+				}
+				if snap, ok := hookTransport(f.tr); ok {
+					for _, tc := range snap.tracked {
+						if tc == ch.chid {
+							c.Violation("C16", "tracked-after-refused-open", "channel still tracked after its open was refused")
+						}
+					}
+					for _, rc := range snap.routes {
+						if rc == ch.chid {
+							c.Violation("C16", "route-after-refused-open", "a request is routed to a channel whose open was refused")
+						}
+					}
+				}
+				for _, o := range f.gs.RegisteredOptions() {
+					if o == "data-transfer-"+ch.chid.String() {
+						c.Violation("C16", "store-registered-after-refused-open", "per-channel store still registered after the channel's open was refused (store configured: %v)", ch.store)
+					}
+				}
+				c.Count("refused_opens", 1)
+				refuseMu.Lock()
+				delete(refuse, ch.chid)
+				refuseMu.Unlock()
+				continue
 			}
 			if ch.out {
 				if err := f.openOut(ch, false); err != nil {
